@@ -43,9 +43,31 @@ def valid_packet(n):
     raise AssertionError
 
 
+def valid_packet_aa(n):
+    """A valid packet whose checksum byte (the last byte on the wire) is 0xAA - half a marker at the very end of a packet."""
+    for src in range(1, 250):
+        for b1 in range(256):
+            data = bytes([n % 250, b1, 0x20 + n % 64, 0, 0, 0, 0, 0xFD])
+            pk = wire.usb(wire.ident(127250, src, 255, 2), data)
+            if pk[19] == 0xAA and MARK not in pk[2:]:
+                return pk
+    raise AssertionError
+
+
 @st.composite
 def noise(draw, kind, maxlen):
     n = draw(st.one_of(st.integers(0, 40), st.integers(0, maxlen)))
+    if kind == "free" and draw(st.integers(0, 3)) == 0:
+        # marker-free noise that starts with the second half of a marker (right after a packet ending in 0xAA this is NOT a marker:
+        # the AA belongs to the packet)
+        tail = bytearray(draw(st.binary(min_size=0, max_size=min(n, 30))))
+        i = tail.find(MARK)
+        while i != -1:
+            tail[i + 1] = 0x54
+            i = tail.find(MARK)
+        if tail and tail[-1] == 0xAA:
+            tail[-1] = 0xAB
+        return b"\x55" + bytes(tail)
     if kind == "free":
         b = bytearray(draw(st.binary(min_size=n, max_size=n)))
         i = b.find(MARK)
@@ -83,9 +105,9 @@ def streams(draw, maxnoise=5000):
     items = []     # (kind, bytes)
     k = 0
     for _ in range(n_items):
-        kind = draw(st.sampled_from(["valid", "valid", "valid", "valid", "corrupt", "truncated", "free", "free", "half", "marked"]))
-        if kind == "valid":
-            items.append(("valid", valid_packet(k), k))
+        kind = draw(st.sampled_from(["valid", "valid", "valid", "valid_aa", "corrupt", "truncated", "free", "free", "half", "marked"]))
+        if kind in ("valid", "valid_aa"):
+            items.append(("valid", valid_packet(k) if kind == "valid" else valid_packet_aa(k), k))
             k += 1
         elif kind == "corrupt":
             pk = bytearray(valid_packet(200 + k))
@@ -281,6 +303,34 @@ def _work(ctx: Ctx, item):
     ctx.hyp(one, streams(maxnoise), max_examples=n, name="serial")
 
 
+def _scenarios(ctx: Ctx, item):
+    """Systematic boundary scenarios: packet (plain / checksum 0xAA) - short marker-free noise - packets, under segmentations that
+    put a read boundary exactly at the item borders."""
+    noises = [b"", b"\x55", b"\x55\x00\x01", b"\xaa", b"\x55" * 5, b"\x00\xaa", b"\x55" + bytes(range(1, 18)), b"\x55\xaa", b"\x54\x55\x56",
+              bytes(19), b"\x55" + bytes(18), b"\x55" + bytes(30)]
+    part, = item
+    for first_aa in (False, True):
+        for ni, nz in enumerate(noises):
+            if ni % 2 != part:
+                continue
+            kind = "half" if nz.endswith(b"\xaa") else "free"
+            items = [("valid", valid_packet_aa(0) if first_aa else valid_packet(0), 0), (kind, nz, None),
+                     ("valid", valid_packet(1), 1), ("valid", valid_packet_aa(2), 2), (kind, nz, None), ("valid", valid_packet(3), 3)]
+            stream = b"".join(b for _, b, _ in items)
+            borders, pos = [], 0
+            for _, b, _ in items[:-1]:
+                pos += len(b)
+                if 0 < pos < len(stream) and pos not in borders:
+                    borders.append(pos)
+            for cuts in ([], borders, borders[:1], list(range(1, len(stream))), [b + 1 for b in borders if b + 1 < len(stream)]):
+                ctx.count()
+                ctx.nontrivial_extra += 1
+                outcome, s_ = run_case(items, cuts)
+                for b, w, c in evaluate(items, cuts, outcome, s_, to_case(items, cuts)):
+                    ctx.report(b, w, c)
+    ctx.klass("boundary_scenarios")
+
+
 def _big(ctx: Ctx, item):
     size, = item
     items = [("valid", valid_packet(0), 0), ("valid", valid_packet(1), 1)]
@@ -295,6 +345,7 @@ def _big(ctx: Ctx, item):
 def run(ctx: Ctx):
     n = 40 if ctx.quick else 500
     pmap(ctx, _work, [(n, 5000)] * 16)
+    pmap(ctx, _scenarios, [(0,), (1,)])
     sizes = [200_000, 100_001] if ctx.quick else [1_000_000, 2_000_000, 5_000_000, 1_000_001]
     pmap(ctx, _big, [(sz,) for sz in sizes])
     if not ctx.quick:
